@@ -7,7 +7,7 @@
 
 use std::io::{BufRead, BufReader, Write};
 use std::process::{Child, Command, Stdio};
-use std::sync::mpsc::{channel, Receiver};
+use std::sync::mpsc::{sync_channel, Receiver};
 use std::time::{Duration, Instant};
 
 pub struct Engine {
@@ -31,7 +31,8 @@ impl Engine {
     pub fn start(bin: &str) -> Result<Engine, String> {
         let mut child = Command::new(bin).stdin(Stdio::piped()).stdout(Stdio::piped()).stderr(Stdio::null()).spawn().map_err(|e| format!("cannot start {bin}: {e}"))?;
         let out = child.stdout.take().unwrap();
-        let (tx, rx) = channel();
+        // bounded: an engine that floods its output is slowed down by the pipe instead of filling this process's memory
+        let (tx, rx) = sync_channel(10_000);
         std::thread::spawn(move || {
             for l in BufReader::new(out).lines().map_while(Result::ok) {
                 if tx.send(l).is_err() {
@@ -63,6 +64,10 @@ impl Engine {
                     got.push(l);
                     if hit {
                         return Ok(got);
+                    }
+                    if got.len() > 300_000 {
+                        let _ = self.child.kill();
+                        return Err(format!("more than 300000 lines of output without `{prefix}` (last: {})", got.last().unwrap()));
                     }
                 }
                 Err(std::sync::mpsc::RecvTimeoutError::Timeout) => return Err(format!("no `{prefix}` within {:?}", timeout)),
